@@ -7,7 +7,7 @@ from harness import core, py2lean, instantiate
 from harness.core import Outcome, f2b, b2f
 
 ID = "C16"
-LEAN_TARGETS = ["BeyondVerif.Props.C16", "BeyondVerif.Props.C16Helpers", "BeyondVerif.Props.C16Seq", "BeyondVerif.Witness.C16"]
+LEAN_TARGETS = ["BeyondVerif.Props.C16", "BeyondVerif.Props.C16Helpers", "BeyondVerif.Props.C16Seq", "BeyondVerif.Props.C16HelperSrc", "BeyondVerif.Witness.C16"]
 THEOREMS = [
     "BeyondVerif.C16.cw_zero",
     "BeyondVerif.C16.cw_solves_hill",
@@ -45,28 +45,209 @@ THEOREMS = [
     "BeyondVerif.C16.eccentric_boost_moves",
     "BeyondVerif.C16.tangential_boost_moves",
     "BeyondVerif.C16.vbar_linear_moves",
+    "BeyondVerif.C16.eccentric_boost_continuous_moves",
+    "BeyondVerif.C16.period_formula",
+    "BeyondVerif.C16.hohmann_distance_formula",
+    "BeyondVerif.C16.coelliptic_formula",
+    "BeyondVerif.C16.coelliptic_tnw",
+    "BeyondVerif.C16.hohmann_formula",
+    "BeyondVerif.C16.hohmann_continuous_formula",
+    "BeyondVerif.C16.hohmann_tnw",
+    "BeyondVerif.C16.eccentric_boost_formula",
+    "BeyondVerif.C16.eccentric_boost_continuous_formula",
+    "BeyondVerif.C16.eccentric_boost_tnw",
+    "BeyondVerif.C16.tangential_boost_formula",
+    "BeyondVerif.C16.tangential_boost_tnw",
+    "BeyondVerif.C16.vbar_linear_formula",
+    "BeyondVerif.C16.vbar_linear_tnw",
+    "BeyondVerif.C16.hohmann_end_to_end",
+    "BeyondVerif.C16.hohmann_continuous_end_to_end",
+    "BeyondVerif.C16.eccentric_boost_end_to_end",
+    "BeyondVerif.C16.eccentric_boost_continuous_end_to_end",
+    "BeyondVerif.C16.tangential_boost_end_to_end",
+    "BeyondVerif.C16.vbar_linear_end_to_end",
+    "BeyondVerif.C16.hohmann_end_to_end_tnw",
+    "BeyondVerif.C16.eccentric_boost_end_to_end_tnw",
+    "BeyondVerif.C16.tangential_boost_end_to_end_tnw",
+    "BeyondVerif.C16.vbar_linear_end_to_end_tnw",
 ]
 LEVEL_TEXT = ("Lean theorems over R about the evolution and acceleration matrices translated from cw.py on every run: the propagated state has, "
               "component by component, the derivative prescribed by Hill's equations with constant thrust (HasDerivAt, all t, all n != 0), "
-              "composition and inverse hold exactly, TNW is the axis permutation of QSW, an impulse adds exactly dv once at its date. "
-              "Maneuver sequencing is hand-modelled and tied by a differential correspondence run against ClohessyWiltshire.propagate.")
-LEVEL_NOTE = ("R -> double gap covered only by tolerance-bounded correspondence; second-order agreement with nonlinear relative motion is not covered "
-              "by any theorem; Lean kernel + propext/Classical.choice/Quot.sound; py2lean translator and harness trusted")
-TECHNIQUE = "Lean 4 proof (HasDerivAt / ring identities) over matrices regenerated from the Python AST; differential correspondence for sequencing"
+              "composition and inverse hold exactly, TNW is the axis permutation of QSW (single step and the whole of propagate with any maneuver list), "
+              "an impulse adds exactly dv once at its date. Maneuver sequencing: the reference solution hillSol (one term per maneuver, order-independent, "
+              "defined before and after the orbit's date) is proved to solve Hill's equations forced by the SUM of the active thrusts with the jumps at the "
+              "impulse dates, for every list (any order, overlapping or not) and every date (state_solves_hill_piecewise_thrust, hillSol_initial, "
+              "impulse_term_jump, burn_term_joins); the sequencing of the current code equals it exactly under NoCut (forwards) / Clear (backwards), "
+              "kernel-checked counter-witnesses outside; the sequencing of the proposed fix equals it unconditionally. The sequencing model is hand-written and "
+              "tied by a differential correspondence run against ClohessyWiltshire.propagate (first and second leg). The rendezvous helper is translated from "
+              "cwhelper.py on every run: its maneuvers are proved to be the ones the outcome theorems start from, its TNW results the permutation of the QSW ones, "
+              "and each helper's own list is run end to end through the model of propagate.")
+LEVEL_NOTE = ("R -> double gap covered only by tolerance-bounded correspondence; uniqueness of the solution of the linear ODE is not formalised (hillSol is shown to BE a "
+              "piecewise solution with the right initial value, jumps and joins; that there is no other is the classical Picard-Lindelof fact); second-order agreement with "
+              "nonlinear relative motion is not covered by any theorem; Lean kernel + propext/Classical.choice/Quot.sound; py2lean translator, the cwhelper translator of "
+              "this module and the harness are trusted")
+TECHNIQUE = "Lean 4 proof (HasDerivAt / ring identities / induction over maneuver lists) over matrices and helper formulas regenerated from the Python AST; differential correspondence for sequencing; independent numerical integration of Hill's equations as oracle"
 TRUSTED = [
     "harness/py2lean.py: translates the evol_mat / accel_mat literals of ClohessyWiltshire._propagate into Generated/CWMat{F,R}.lean on every run",
-    "lean/templates/CW.tpl (hand-written maneuver sequencing and TNW rotation), tied by the correspondence run",
+    "harness/props/C16.py HelperTr: translates the method bodies of beyond/utils/cwhelper.py into Generated/CWHelper{F,R}.lean on every run (ImpulsiveMan / ContinuousMan constructor semantics quoted from man.py: start = date, stop = start + duration, accel = dv / duration); tied by the correspondence run helper-translated",
+    "lean/templates/CW.tpl (hand-written maneuver sequencing cwPropagate, TNW rotation, reference solution hillSol), tied by the correspondence run (cw, cw0 second leg; cwref / cwfix against the independent integration)",
     "numpy / libm double arithmetic vs R: tolerance 1e-9 relative",
 ]
 ASSUMPTIONS = ["maneuvers are given in the frame of the orbit (frame=None); QSW/TNW-tagged maneuvers belong to C17",
-               "theorems are over R; the implementation computes in IEEE doubles"]
+               "theorems are over R; the implementation computes in IEEE doubles",
+               "maneuver vectors have three components (WF), states six"]
 NOT_COVERED = ["second-order agreement with the difference of two Keplerian orbits (asymptotic statement about the true dynamics): oracle only"]
-OPEN = ["the helper theorems take the helper's delta-v / acceleration formulas as quoted from cwhelper.py; that the real helper returns exactly those values is checked by the correspondence run (helper-formulas), not by translation"]
-RULE = ("correspondence: random (n from radii LEO..GEO, |t| <= 2 periods, relative states up to km and m/s, 0-4 maneuvers, both orientations) through "
-        "ClohessyWiltshire._propagate/propagate vs the compiled Lean model; non-trivial = t != 0; distinct = distinct request line. "
-        "oracle: finite-difference Hill residual, composition, impulse jump, TNW permutation, helper outcomes on the real API")
+OPEN = ["uniqueness of the piecewise solution of Hill's equations (so that hillSol is THE solution) is not formalised",
+        "current code: state_solves_hill_piecewise_thrust holds only under NoCut / Clear (open findings C16-return-inside-burn-drops-later-maneuvers, C16-backward-ignores-past-maneuvers); "
+        "the unconditional theorem is proved for the sequencing of proposed_fixes/C16-maneuver-superposition.diff (cwPropagateFixed)"]
+RULE = ("correspondence: random (n from radii LEO..GEO, |t| <= 2 periods, relative states up to km and m/s, 0-5 maneuvers, both orientations) through "
+        "ClohessyWiltshire._propagate/propagate vs the compiled Lean model; maneuver lists of every shape (overlapping / nested / back-to-back burns, impulses inside and at the ends "
+        "of burns, non-chronological, dated before the orbit), dates before / at / 1 ms beside / inside / after every maneuver and before the orbit's date, second leg from the returned "
+        "orbit; hillSol and the fixed sequencing vs an independent matrix-exponential integration; CWHelper vs its translation; non-trivial = t != 0; distinct = distinct request line. "
+        "oracle: finite-difference Hill residual, composition, impulse jump, TNW permutation, propagate vs the independent integration of Hill's equations with the piecewise-constant sum "
+        "of the active thrusts (one leg, second leg forwards and backwards, superposition), helper outcomes on the real API")
 
 CW_PY = os.path.join(core.REPO, "beyond", "propagators", "cw.py")
+
+
+CWH_PY = os.path.join(core.REPO, "beyond", "utils", "cwhelper.py")
+
+
+class HelperTr:
+    """The method bodies of beyond/utils/cwhelper.py -> Lean.  Scalars go through py2lean.Tr (`self.n` -> `n`, `self.period` and
+    `timedelta(seconds=e)` -> seconds, `np.sign` -> `signR`); 3-vectors are lists: `self._mat3 @ [..]` -> `matVec m3 [..]`, numpy
+    broadcasting `v * s` / `s * v` / `v / s` -> `vmuls` / `smulv` / `vdivs`, `-v` -> `vneg`; `ImpulsiveMan(date, dv)` -> `Man.imp`,
+    `ContinuousMan(date, duration, dv= | accel=)` -> `Man.cont date (date + duration) …` (man.py: start = date, stop = start + duration,
+    accel = dv / duration.total_seconds()); `Orbit(vec, …)` -> the vector.  Anything else raises Untranslatable."""
+
+    def __init__(self):
+        self.vec = set()
+        self.tr = py2lean.Tr(consts={"self.n": "n", "self.period": "(helperPeriod n)"},
+                             funcs={"sign": "signR", "self.coelliptic_velocity": "helperCoellipticVelocity n"})
+
+    def scalar(self, e):
+        class Strip(ast.NodeTransformer):
+            def visit_Call(self, node):
+                self.generic_visit(node)
+                if isinstance(node.func, ast.Name) and node.func.id == "timedelta" and not node.args and len(node.keywords) == 1 \
+                        and node.keywords[0].arg == "seconds":
+                    return node.keywords[0].value
+                return node
+        import copy
+        return self.tr.expr(Strip().visit(copy.deepcopy(e)))
+
+    def vector(self, e):
+        """Lean text of a vector-valued expression, or None when the expression is a scalar"""
+        if isinstance(e, ast.Name):
+            return py2lean.lname(e.id) if e.id in self.vec else None
+        if isinstance(e, ast.BinOp) and isinstance(e.op, ast.MatMult):
+            m = self.tr.dotted(e.left)
+            if m not in ("self._mat3", "self._mat6") or not isinstance(e.right, (ast.List, ast.Tuple)):
+                raise py2lean.Untranslatable("matrix product " + ast.unparse(e))
+            return f"(matVec {'m3' if m.endswith('3') else 'm6'} [" + ", ".join(self.scalar(x) for x in e.right.elts) + "])"
+        if isinstance(e, ast.UnaryOp) and isinstance(e.op, ast.USub):
+            v = self.vector(e.operand)
+            return None if v is None else f"(vneg {v})"
+        if isinstance(e, ast.BinOp) and isinstance(e.op, (ast.Mult, ast.Div)):
+            l, r = self.vector(e.left), self.vector(e.right)
+            if l is not None and r is None:
+                return f"({'vmuls' if isinstance(e.op, ast.Mult) else 'vdivs'} {l} {self.scalar(e.right)})"
+            if l is None and r is not None and isinstance(e.op, ast.Mult):
+                return f"(smulv {self.scalar(e.left)} {r})"
+            if l is not None or r is not None:
+                raise py2lean.Untranslatable("vector operation " + ast.unparse(e))
+        return None
+
+    def value(self, e):
+        """maneuver constructors, tuples / lists of them, an Orbit, a vector or a scalar"""
+        if isinstance(e, (ast.Tuple, ast.List)) and e.elts and all(isinstance(x, ast.Call) for x in e.elts):
+            return "[" + ", ".join(self.value(x)[0] for x in e.elts) + "]", "mans"
+        if isinstance(e, ast.Call) and isinstance(e.func, ast.Name) and e.func.id == "ImpulsiveMan":
+            if len(e.args) != 2 or e.keywords:
+                raise py2lean.Untranslatable("ImpulsiveMan arguments")
+            return f"Man.imp {self.scalar(e.args[0])} {self.need_vec(e.args[1])}", "man"
+        if isinstance(e, ast.Call) and isinstance(e.func, ast.Name) and e.func.id == "ContinuousMan":
+            if len(e.args) != 2 or len(e.keywords) != 1 or e.keywords[0].arg not in ("dv", "accel"):
+                raise py2lean.Untranslatable("ContinuousMan arguments")
+            d, dur, v = self.scalar(e.args[0]), self.scalar(e.args[1]), self.need_vec(e.keywords[0].value)
+            acc = v if e.keywords[0].arg == "accel" else f"(vdivs {v} {dur})"
+            return f"Man.cont {d} ({d} + {dur}) {acc}", "man"
+        if isinstance(e, ast.Call) and isinstance(e.func, ast.Name) and e.func.id == "Orbit":
+            return self.need_vec(e.args[0]), "vec"
+        if isinstance(e, ast.IfExp):
+            a, ta = self.value(e.body)
+            b, tb = self.value(e.orelse)
+            if ta != tb:
+                raise py2lean.Untranslatable("conditional of two kinds")
+            return f"(if {self.scalar(e.test)} then {a} else {b})", ta
+        v = self.vector(e)
+        if v is not None:
+            return v, "vec"
+        return self.scalar(e), "scalar"
+
+    def need_vec(self, e):
+        v = self.vector(e)
+        if v is None:
+            raise py2lean.Untranslatable("vector expected: " + ast.unparse(e))
+        return v
+
+    def body(self, stmts):
+        lines = []
+        kinds = {}
+        for s in stmts:
+            if isinstance(s, ast.Expr) and isinstance(s.value, ast.Constant):
+                continue
+            if isinstance(s, ast.Assign) and len(s.targets) == 1 and isinstance(s.targets[0], ast.Name):
+                txt, kind = self.value(s.value)
+                name = s.targets[0].id
+                (self.vec.add if kind == "vec" else self.vec.discard)(name)
+                kinds[name] = kind
+                lines.append(f"let {py2lean.lname(name)} := {txt}")
+            elif isinstance(s, ast.If) and len(s.body) == 1 and len(s.orelse) == 1 and all(
+                    isinstance(b, ast.Assign) and len(b.targets) == 1 and isinstance(b.targets[0], ast.Name) for b in (s.body[0], s.orelse[0])) \
+                    and s.body[0].targets[0].id == s.orelse[0].targets[0].id:
+                name = s.body[0].targets[0].id
+                a, ka = self.value(s.body[0].value)
+                b, kb = self.value(s.orelse[0].value)
+                if ka != kb:
+                    raise py2lean.Untranslatable("branches of two kinds")
+                kinds[name] = ka
+                lines.append(f"let {py2lean.lname(name)} := if {self.scalar(s.test)} then {a} else {b}")
+            elif isinstance(s, ast.Return) and s.value is not None:
+                if isinstance(s.value, ast.Name) and s.value.id in kinds:
+                    lines.append(py2lean.lname(s.value.id))
+                else:
+                    lines.append(self.value(s.value)[0])
+                return "\n".join("  " + l for l in lines)
+            else:
+                raise py2lean.Untranslatable(f"cwhelper statement {ast.unparse(s)[:60]}")
+        raise py2lean.Untranslatable("no return")
+
+
+# lean name, python method, binders (Lean), result type
+HELPERS = [
+    ("helperPeriod", "period", "(n : R)", "R"),
+    ("helperCoellipticVelocity", "coelliptic_velocity", "(n radial : R)", "R"),
+    ("helperCoelliptic", "coelliptic", "(m6 : List (List R)) (n date radial tangential : R)", "List R"),
+    ("helperHohmannDistance", "hohmann_distance", "(radial : R) (continuous : Bool)", "R"),
+    ("helperHohmann", "hohmann", "(m3 : List (List R)) (n radial date : R) (continuous : Bool)", "List Man"),
+    ("helperEccentricBoost", "eccentric_boost", "(m3 : List (List R)) (n tangential date : R) (continuous : Bool)", "List Man"),
+    ("helperTangentialBoost", "tangential_boost", "(m3 : List (List R)) (n tangential date : R)", "List Man"),
+    ("helperVbarLinear", "vbar_linear", "(m3 : List (List R)) (n tangential date dv : R)", "List Man"),
+]
+
+
+def translate_helpers():
+    tree = ast.parse(open(CWH_PY).read())
+    out = []
+    for lean, meth, binders, ty in HELPERS:
+        fn = py2lean.find_function(tree, "CWHelper." + meth)
+        params = [a.arg for a in fn.args.args[1:]]
+        declared = binders.replace("(", " ").replace(")", " ").replace(":", " ").split()
+        if not all(p in declared for p in params):
+            raise py2lean.Untranslatable(f"CWHelper.{meth}: parameters {params} changed")
+        out.append(f"/-- `CWHelper.{meth}` -/\ndef {lean} {binders} : {ty} :=\n{HelperTr().body(fn.body)}\n")
+    return "\n".join(out)
 
 
 def extract(ctx):
@@ -74,12 +255,13 @@ def extract(ctx):
                                    stop_before=lambda s: isinstance(s, ast.If) and "orientation" in ast.dump(s.test))
     ch = py2lean.instantiate(core.LEAN, "CWMat", body, "beyond/propagators/cw.py")
     ch += instantiate.main()
+    ch += py2lean.instantiate(core.LEAN, "CWHelper", translate_helpers(), "beyond/utils/cwhelper.py", imports=["Model.CW"])
     return ch
 
 
 # ---------------------------------------------------------------- real code adapters
 
-def make(ori, sma, x, mans=()):
+def make(ori, sma, x, mans=(), t0=0.0):
     from beyond.orbits import Orbit
     from beyond.dates import Date, timedelta
     from beyond.propagators.cw import ClohessyWiltshire
@@ -88,7 +270,7 @@ def make(ori, sma, x, mans=()):
     hill = HillFrame(orientation=ori)
     prop = ClohessyWiltshire(sma, frame=hill)
     d0 = Date(2020, 5, 24)
-    orb = Orbit(list(x), d0, "cartesian", "Hill", prop)
+    orb = Orbit(list(x), d0 + timedelta(seconds=t0), "cartesian", "Hill", prop)
     ms = []
     for m in mans:
         if m[0] == "i":
@@ -233,11 +415,62 @@ def correspondence(ctx):
         meta.append(("fixed-sequencing-reference", list(map(float, ref)), 10 * sp, 10 * (sp * n + sv), {"sma": sma, "t0": t0r, "t": tr, "x": x, "mans": mans}))
         out.count(key=reqs[-1], kind="fixed-sequencing-reference", direction="backward" if tr < t0r else "forward", shape=shape(mans))
     helper_formulas(out, rng, ctx.n(40, 400))
+    helper_translated(out, rng, ctx.n(40, 400))
     replies = core.Driver().run(reqs)
     for req, (kind, real, sp, sv, inp), rep in zip(reqs, meta, replies):
         compare(out, kind, req, real, rep, sp, sv, inp)
         out.sample({"request": req[:120] + "…", "impl": real, "model": [b2f(s) for s in rep.split()] if rep[0].isdigit() else rep}, limit=2)
     return out
+
+
+def flat_mans(mans, d0):
+    from beyond.orbits.man import ImpulsiveMan
+    r = []
+    for m in mans:
+        if isinstance(m, ImpulsiveMan):
+            r += [0.0, (m.date - d0).total_seconds()] + [float(v) for v in m._dv]
+        else:
+            r += [1.0, (m.start - d0).total_seconds(), (m.stop - d0).total_seconds()] + [float(v) for v in m._accel]
+    return r
+
+
+def helper_translated(out, rng, N):
+    """the maneuvers / states returned by the real CWHelper against the compiled translation of cwhelper.py (Generated/CWHelperF.lean,
+    the definitions the helper theorems of Props/C16HelperSrc.lean are about), both orientations, both signs of every distance"""
+    from beyond.dates import timedelta
+    from beyond.utils.cwhelper import CWHelper
+    reqs, meta = [], []
+    for _ in range(N):
+        ori = rng.choice(["QSW", "TNW"])
+        sma = rng.choice([6.7e6, 7.0e6, 2.66e7, 4.2164e7]) * rng.uniform(0.99, 1.01)
+        orb0, prop, d0 = make(ori, sma, [0] * 6)
+        hp = CWHelper(prop)
+        n = float(prop.n)
+        r = rng.uniform(-3000, 3000)
+        tg = rng.choice([-1, 1]) * rng.uniform(1, 3000)
+        v = rng.uniform(0.01, 1.0)
+        ds = q(rng.uniform(0, 5000))
+        date = d0 + timedelta(seconds=ds)
+        tnw = "1" if ori == "TNW" else "0"
+        cases = [
+            ("coelliptic", [n, ds, r, tg], [float(x) for x in hp.coelliptic(date, r, tg)] + [hp.period.total_seconds(), float(hp.hohmann_distance(r)), float(hp.hohmann_distance(r, continuous=True))]),
+            ("hohmann", [n, r, ds, 0.0], flat_mans(hp.hohmann(r, date), d0)),
+            ("hohmann", [n, r, ds, 1.0], flat_mans(hp.hohmann(r, date, continuous=True), d0)),
+            ("eccentric", [n, tg, ds, 0.0], flat_mans(hp.eccentric_boost(tg, date), d0)),
+            ("eccentric", [n, tg, ds, 1.0], flat_mans(hp.eccentric_boost(tg, date, continuous=True), d0)),
+            ("tangential", [n, tg, ds, 0.0], flat_mans(hp.tangential_boost(tg, date), d0)),
+            ("vbar", [n, tg, ds, v], flat_mans(hp.vbar_linear(tg, date, v), d0)),
+        ]
+        for which, args, real in cases:
+            reqs.append(" ".join(["helper", tnw, which] + [f2b(a) for a in args]))
+            meta.append((which, ori, args, real))
+            out.count(key=reqs[-1], kind=f"helper-translated-{which}-{ori}", sign="neg" if args[1] < 0 else "pos")
+    for req, (which, ori, args, real), rep in zip(reqs, meta, core.Driver().run(reqs)):
+        model = [b2f(t) for t in rep.split()] if rep and rep[0].isdigit() else None
+        # dates and durations go through timedelta (rounded to the microsecond): 2e-6 s absolute on every entry is below any physical meaning
+        if model is None or len(model) != len(real) or not all(abs(a - b) <= 1e-9 * max(abs(a), abs(b)) + 2e-6 * (1.0 if abs(b) > 1.0 else 1e-6) for a, b in zip(real, model)):
+            out.fail("helper-translated-" + which, "CWHelper returns something else than the translation of cwhelper.py the helper theorems are proved about",
+                     {"helper": which, "ori": ori, "args": args}, observed=real, expected=model if model is not None else rep)
 
 
 def helper_formulas(out, rng, N):
@@ -725,8 +958,20 @@ def vbar(out, rng, N):
 
 
 def replay(f):
-    out = Outcome()
-    import random
-    # re-run the oracle family on the recorded input is family-specific; the generic path re-runs a short oracle sweep
+    import numpy as np
+    from beyond.dates import timedelta
+    fam, inp = f["family"], f["input"]
+    if fam.startswith("piecewise-") and isinstance(inp, dict) and "mans" in inp:
+        # re-run the recorded (list, orbit date, target date) on the real propagator against the independent integration
+        out = Outcome()
+        mans = [tuple(m) for m in inp["mans"]]
+        orb, prop, d0 = make(inp["ori"], inp["sma"], inp["x"], mans, t0=inp["t0"])
+        got = np.array(orb.propagate(timedelta(seconds=q(inp["t"] - inp["t0"]))))
+        check_seq(out, inp.get("check", "one-leg"), inp["ori"], inp["sma"], inp["x"], mans, inp["t0"], inp["t"], got, float(prop.n), "replay")
+        return out
+    # other families: a short oracle sweep (failing inputs that belong to an open known finding do not count as a reproduction)
     ctx = core.Ctx(ID, "quick", 0)
-    return oracle(ctx, False)
+    out = oracle(ctx, False)
+    known = core.load_known()
+    out.failures = [x for x in out.failures if core.match_known(ID, x, known) is None]
+    return out
